@@ -7,7 +7,8 @@ git -C /repo diff --quiet || { echo "/repo has local changes; refusing"; exit 3;
 for id in $ids; do
   d=seeded/$id; [ -f $d/patch.diff ] || continue
   git -C /repo apply $PWD/$d/patch.diff || { echo "$id patch does not apply"; continue; }
-  out=$(timeout 3600 bin/check $id --tier ${TIER:-quick} 2>&1); rc=$?
+  prop=${id%[a-z]}
+  out=$(timeout 3600 bin/check $prop --tier ${TIER:-quick} 2>&1); rc=$?
   git -C /repo checkout -- .
   n=$(echo "$out" | grep -c '^VIOLATION')
   echo "$id exit=$rc violations=$n $(echo "$out" | grep -A1 '^VIOLATION' | grep -v '^VIOLATION\|^--' | head -1 | cut -c1-200)"
